@@ -36,6 +36,10 @@ pub struct Cfg {
     pub leaf_w: [u32; 3],
     /// chance (out of 3) that a key is an extended key (only with KeyStyle::Rich)
     pub xpub_chance: usize,
+    /// lock values beyond the small boundary set (any height / time; BIP68-ignored bits set)
+    pub wide_locks: bool,
+    /// occasionally (1/12) a multisig with up to this many keys (0 = never)
+    pub big_multi_n: usize,
 }
 
 impl Cfg {
@@ -55,6 +59,8 @@ impl Cfg {
             consistent_locks: false,
             leaf_w: [6, 2, 2],
             xpub_chance: 1,
+            wide_locks: true,
+            big_multi_n: 20,
         }
     }
     pub fn sane(ctx: Ctx, size: usize) -> Cfg {
@@ -73,10 +79,13 @@ pub struct State {
     pub used: BTreeSet<usize>,
     pub abs_time: Option<bool>,
     pub rel_time: Option<bool>,
+    /// lock values already used in this script (re-used with chance 1/3: equal locks on one path)
+    pub afters: Vec<u32>,
+    pub olders: Vec<u32>,
 }
 
 impl State {
-    pub fn new() -> State { State { used: BTreeSet::new(), abs_time: None, rel_time: None } }
+    pub fn new() -> State { State { used: BTreeSet::new(), abs_time: None, rel_time: None, afters: Vec::new(), olders: Vec::new() } }
 }
 
 /// Key text for pool index `i`.
@@ -130,6 +139,16 @@ pub const OLDER_HEIGHTS: [u32; 4] = [1, 2, 144, 65_535];
 pub const OLDER_TIMES: [u32; 3] = [0x40_0001, 0x40_0090, 0x40_ffff];
 
 fn gen_after(src: &mut Src, cfg: &Cfg, st: &mut State) -> Node {
+    if !st.afters.is_empty() && src.chance(1, 3) {
+        return Node::After(*src.pick(&st.afters));
+    }
+    let n = gen_after_new(src, cfg, st);
+    if let Node::After(v) = n {
+        st.afters.push(v);
+    }
+    n
+}
+fn gen_after_new(src: &mut Src, cfg: &Cfg, st: &mut State) -> Node {
     let mut time = src.chance(1, 3);
     if cfg.consistent_locks {
         match st.abs_time {
@@ -137,15 +156,49 @@ fn gen_after(src: &mut Src, cfg: &Cfg, st: &mut State) -> Node {
             None => st.abs_time = Some(time),
         }
     }
+    if cfg.wide_locks && src.chance(1, 4) {
+        // any value of the unit's range
+        let v = if time { 500_000_000 + src.u32() % (0x8000_0000 - 500_000_000) } else { 1 + src.u32() % 499_999_999 };
+        return Node::After(v);
+    }
     Node::After(if time { *src.pick(&AFTER_TIMES) } else { *src.pick(&AFTER_HEIGHTS) })
 }
 fn gen_older(src: &mut Src, cfg: &Cfg, st: &mut State) -> Node {
+    if !st.olders.is_empty() && src.chance(1, 3) {
+        return Node::Older(*src.pick(&st.olders));
+    }
+    let n = gen_older_new(src, cfg, st);
+    if let Node::Older(v) = n {
+        st.olders.push(v);
+    }
+    n
+}
+fn gen_older_new(src: &mut Src, cfg: &Cfg, st: &mut State) -> Node {
     let mut time = src.chance(1, 3);
     if cfg.consistent_locks {
         match st.rel_time {
             Some(t) => time = t,
             None => st.rel_time = Some(time),
         }
+    }
+    if cfg.wide_locks && src.chance(1, 4) {
+        // any BIP68-enabled value: random low 16 bits, the unit flag, and (often) bits that BIP68
+        // ignores (16..21, 23..30) which the library must carry through unchanged
+        let mut v = match src.below(4) {
+            0 => 0,
+            1 => 0xffff,
+            _ => src.u32() & 0xffff,
+        };
+        if time {
+            v |= 1 << 22;
+        }
+        if src.chance(2, 3) {
+            v |= src.u32() & 0x7fbf_0000;
+        }
+        if v == 0 {
+            v = 1;
+        }
+        return Node::Older(v);
     }
     Node::Older(if time { *src.pick(&OLDER_TIMES) } else { *src.pick(&OLDER_HEIGHTS) })
 }
@@ -161,8 +214,17 @@ fn gen_hash(src: &mut Src) -> Node {
 }
 
 fn gen_multi(src: &mut Src, cfg: &Cfg, st: &mut State) -> Node {
-    let n = src.range(1, cfg.max_multi_n.max(1));
-    let k = src.range(1, n);
+    let n = if cfg.big_multi_n > cfg.max_multi_n && src.chance(1, 12) {
+        // multi: at most 20 keys; multi_a: no such bound, 17+ keys need a 2-byte count push
+        src.range(cfg.max_multi_n.max(1), if cfg.ctx == Ctx::Tap { cfg.big_multi_n + 6 } else { cfg.big_multi_n.min(20) })
+    } else {
+        src.range(1, cfg.max_multi_n.max(1))
+    };
+    let k = match src.below(4) {
+        0 => n,
+        1 => 1,
+        _ => src.range(1, n),
+    };
     let mut ks = Vec::new();
     for _ in 0..n {
         ks.push(pick_key(src, cfg, st));
@@ -551,16 +613,24 @@ pub fn gen_world(src: &mut Src, d: &MDesc) -> World {
     } else {
         gen_lock_value(src, &olders, &[0, 0x40_0000, 0xffff, 0x40_ffff, 0x8000_0001, 0xffff_fffe])
     };
-    World { keys: keys_set, preimages, lock_time, sequence }
+    // mostly version 2; version 1 makes every relative lock unspendable (BIP68), 3 behaves like 2
+    let tx_version = match src.below(10) {
+        0 | 1 => 1,
+        2 => 3,
+        _ => 2,
+    };
+    World { keys: keys_set, preimages, lock_time, sequence, tx_version }
 }
 
 fn gen_lock_value(src: &mut Src, own: &[u32], others: &[u32]) -> u32 {
     if !own.is_empty() && src.chance(3, 4) {
         let t = *src.pick(own);
-        match src.below(4) {
+        match src.below(6) {
             0 => t,
             1 => t.wrapping_add(1),
             2 => t.wrapping_sub(1),
+            3 => t & 0x0040_ffff,
+            4 => (t & 0x0040_ffff).wrapping_add(1),
             _ => own.iter().copied().max().unwrap(),
         }
     } else {
